@@ -2,7 +2,7 @@
 # Confirms a seeded change in its scratch worktree: demo passes on the unmodified tree, fails with the
 # patch; the repository's own suite (minus the always-failing tests) still passes with the patch.
 ID=$1; VAR=$2
-WT=/tmp/seed/$ID/wt; OUT=/tmp/seed/$ID/out/$VAR
+BASE=${SEEDBASE:-/tmp/seed}; WT=$BASE/$ID/wt; OUT=$BASE/$ID/out/$VAR
 LOG=$OUT/confirm.log; : > $LOG
 README=$OUT/demo/README.md
 PKG=$(grep -o "cargo test -p inkayaku_[a-z_]*" $README | head -1 | awk '{print $4}')
@@ -31,7 +31,7 @@ install_demo
 echo "## demo on unmodified tree" >> $LOG
 run_demo >> $LOG 2>&1; RC_CLEAN=$?
 remove_demo
-git apply $OUT/patch.diff >> $LOG 2>&1 || { echo "$ID/$VAR APPLY-FAILED" >> /tmp/seed/confirm_summary.txt; exit 1; }
+git apply $OUT/patch.diff >> $LOG 2>&1 || { echo "$ID/$VAR APPLY-FAILED" >> $BASE/confirm_summary.txt; exit 1; }
 install_demo
 echo "## demo with patch" >> $LOG
 run_demo >> $LOG 2>&1; RC_PATCH=$?
@@ -41,4 +41,4 @@ timeout 1500 cargo test --workspace --no-fail-fast --offline -- --skip run_all >
 PASSED=$(grep -E "^test .* \.\.\. ok$" $OUT/suite.log | wc -l)
 FAILED=$(grep -E "^test .* \.\.\. FAILED$" $OUT/suite.log | sed 's/ \.\.\. FAILED//' | sort | tr '\n' ' ')
 git checkout -q -- . ; git clean -fdq -e target
-echo "$ID/$VAR demo_clean_rc=$RC_CLEAN demo_patched_rc=$RC_PATCH suite_passed=$PASSED suite_failed=[$FAILED]" >> /tmp/seed/confirm_summary.txt
+echo "$ID/$VAR demo_clean_rc=$RC_CLEAN demo_patched_rc=$RC_PATCH suite_passed=$PASSED suite_failed=[$FAILED]" >> $BASE/confirm_summary.txt
